@@ -418,3 +418,67 @@ def expand_aliases(fn: FuncInfo, node: ast.AST, depth: int = 0) -> ast.AST:
                 return expand_aliases(fn, copy.deepcopy(d[0]), depth + 1)
             return n
     return T().visit(copy.deepcopy(node))
+
+
+# ------------------------------------------------------------------------------------------------------------------
+# three-valued evaluation of a guard under a scenario (a finite assignment of truth values to leaf tests)
+# ------------------------------------------------------------------------------------------------------------------
+def eval_guard(e: ast.expr, leaf, expand=None, depth: int = 0) -> Optional[bool]:
+    """Truth of the boolean expression `e` when `leaf(expr) -> True | False | None` decides its leaves; `expand(name_node)`
+    may return the defining expression of a local.  None: not decided by the scenario."""
+    if depth > 12:
+        return None
+    v = leaf(e)
+    if v is not None:
+        return v
+    if isinstance(e, ast.UnaryOp) and isinstance(e.op, ast.Not):
+        r = eval_guard(e.operand, leaf, expand, depth + 1)
+        return None if r is None else not r
+    if isinstance(e, ast.BoolOp):
+        rs = [eval_guard(x, leaf, expand, depth + 1) for x in e.values]
+        if isinstance(e.op, ast.And):
+            if any(r is False for r in rs):
+                return False
+            return True if all(r is True for r in rs) else None
+        if any(r is True for r in rs):
+            return True
+        return False if all(r is False for r in rs) else None
+    if isinstance(e, ast.IfExp):
+        t = eval_guard(e.test, leaf, expand, depth + 1)
+        if t is None:
+            a, b = eval_guard(e.body, leaf, expand, depth + 1), eval_guard(e.orelse, leaf, expand, depth + 1)
+            return a if a == b else None
+        return eval_guard(e.body if t else e.orelse, leaf, expand, depth + 1)
+    if isinstance(e, ast.Constant):
+        return bool(e.value)
+    if isinstance(e, ast.Name) and expand is not None:
+        d = expand(e)
+        if d is not None:
+            return eval_guard(d, leaf, expand, depth + 1)
+    return None
+
+
+def reach_under(ctx, node: ast.AST, leaf, expand=None, relevant=None) -> Optional[bool]:
+    """Whether `node` is evaluated under the scenario: every dominating branch condition evaluates to its polarity.
+    Conditions that do not involve the scenario at all (`relevant(cond)` is False, also after expanding locals) are about
+    something else and are skipped."""
+    def involved(e, depth=0) -> bool:
+        if relevant is None or relevant(e):
+            return True
+        if expand is not None and depth < 4:
+            for nm in [x for x in ast.walk(e) if isinstance(x, ast.Name)]:
+                d = expand(nm)
+                if d is not None and involved(d, depth + 1):
+                    return True
+        return False
+
+    out: Optional[bool] = True
+    for cond, pol in ctx.flow.path_conditions(node):
+        r = eval_guard(cond, leaf, expand)
+        if r is None:
+            if not involved(cond):
+                continue
+            out = None
+        elif r != pol:
+            return False
+    return out
